@@ -739,6 +739,13 @@ func (lc *loginCase) field(name string) *string {
 	return nil
 }
 
+// loginNegotiated: the password travels in the encrypted negotiation (and
+// the record's slot stays empty) exactly when the configuration asks for
+// the one negotiation the library implements. Any other message id in
+// LoginConfig.Encrypt (the field accepts any TDSMsgId) is a login without
+// negotiation, whose only way to transmit the password is the record.
+func loginNegotiated(enc uint16) bool { return tds.TDSMsgId(enc) == tds.TDS_MSG_SEC_ENCRYPT4 }
+
 func nominalLogin(enc uint16) loginCase {
 	return loginCase{Hostname: "clienthost", Username: "sa_user", Password: "secret-pw", HostProc: "4711", AppName: "app", ServName: "ASESRV", Language: "us_english", CharSet: "utf8", Encrypt: enc}
 }
@@ -784,7 +791,7 @@ func runLogin(lc loginCase) (out loginOutcome) {
 	// failing LOGINACK otherwise (Login gives up after it, having written
 	// its record)
 	ack := refpkg.LoginAck{Status: 5, TDSVersion: [4]byte{5, 0, 0, 0}, ProgName: "srv", ProgVersion: [4]byte{16, 0, 0, 0}}
-	if lc.Encrypt != 0 {
+	if loginNegotiated(lc.Encrypt) {
 		ack.Status = 6
 	}
 	body := append(ack.Encode(), refpkg.Done{Tok: refpkg.TokDone}.Encode()...)
@@ -834,7 +841,7 @@ func (x *c06Runner) loginCheck(lc loginCase) {
 	rec.Hex = hexHead(out.Stream)
 	oversize := ""
 	for _, n := range loginFieldNames {
-		if n == "password" && lc.Encrypt != 0 {
+		if n == "password" && loginNegotiated(lc.Encrypt) {
 			continue // not part of the record when the password is negotiated
 		}
 		if len(*lc.field(n)) > 30 {
@@ -867,7 +874,7 @@ func (x *c06Runner) loginCheck(lc loginCase) {
 	}
 	want := map[string]string{"hostname": lc.Hostname, "username": lc.Username, "password": lc.Password, "hostproc": lc.HostProc,
 		"appname": lc.AppName, "servname": lc.ServName, "language": lc.Language, "charset": lc.CharSet, "rempw": ""}
-	if lc.Encrypt != 0 {
+	if loginNegotiated(lc.Encrypt) {
 		want["password"] = ""
 	}
 	for name, w := range want {
@@ -881,7 +888,7 @@ func (x *c06Runner) loginCheck(lc loginCase) {
 			r.Violate("login/"+name+"/padding", fmt.Sprintf("%s: padding after %d bytes is not zero: % x", name, f.Len, f.Raw), rec)
 		}
 	}
-	if lc.Encrypt == 0 && lc.Password != "" {
+	if !loginNegotiated(lc.Encrypt) && lc.Password != "" {
 		r.Count("login_cleartext_password_records", 1)
 	}
 	for name, w := range refpkg.LittleEndianConstants {
@@ -915,10 +922,13 @@ func (x *c06Runner) loginCheck(lc loginCase) {
 func genLoginCases(g genCtx) []loginCase {
 	var out []loginCase
 	rnd := g.rnd("login")
-	for _, enc := range []uint16{0, uint16(tds.TDS_MSG_SEC_ENCRYPT4)} {
+	for _, enc := range []uint16{0, uint16(tds.TDS_MSG_SEC_ENCRYPT4), uint16(tds.TDS_MSG_SEC_LOGPWD), uint16(tds.TDS_MSG_SEC_OPAQUE), 0xffff} {
 		encLab := "cleartext"
-		if enc != 0 {
+		switch {
+		case loginNegotiated(enc):
 			encLab = "encrypt4"
+		case enc != 0:
+			encLab = fmt.Sprintf("cleartext-msgid-%d", enc)
 		}
 		lens := []int{}
 		for l := 0; l <= 31; l++ {
